@@ -103,6 +103,15 @@ def steps():
         return x >> pdt.union(r >> pdt.select(*[r[n] for n in reversed(names)]))
 
     add("union(t2)", lambda x, c: _un(x, c, c.t2), effect="destroy", needs=(), breaks=True)
+    def _un_sub(x, c):
+        names = [col.name for col in x]
+        r = c.t2
+        if "h" not in r or not all(n in r for n in names) or any(x[n].dtype() != r[n].dtype() for n in names):
+            return None
+        sub = r >> pdt.arrange(r.h) >> pdt.slice_head(4, offset=1) >> pdt.alias("s2")
+        return x >> pdt.union(sub >> pdt.filter(sub.h > 1) >> pdt.select(*[sub[n] for n in reversed(names)]))
+
+    add("union(subquery)", _un_sub, effect="destroy", needs=(), breaks=True)
     add("union(self)", lambda x, c: _un(x, c, c.t), effect="destroy", needs=(), breaks=True)
     add("alias", lambda x, c: x >> pdt.alias("al"), needs=())
     return S
